@@ -75,7 +75,7 @@ func coqObs(o *Obs) string {
 	for i, e := range o.Execs {
 		ex[i] = "(" + hx.CoqZ(e.ID) + ", " + hx.CoqZ(e.T) + ")"
 	}
-	return fmt.Sprintf("(mkObs %s %s %s %s)", hx.CoqList(ex), hx.CoqZ(int64(o.Pos)), hx.CoqZ(o.Dl), hx.CoqBool(o.Closed))
+	return fmt.Sprintf("(mkObs %s %s %s %s)", hx.CoqList(ex), hx.CoqZ(int64(o.Pos)), hx.CoqZ(o.Dl), hx.CoqZ(int64(o.Closed)))
 }
 
 // ---------------------------------------------------------------------------------------
@@ -319,6 +319,37 @@ func c06GenScript(ctx *core.Ctx, r *hx.Rand, style int) {
 	}
 	nsteps := r.Range(4, 22)
 	gatedStyle := style == 1 || style == 3
+	if style == 1 && r.Chance(1, 5) {
+		// Close burst: the loop is held (in the callback, or at Now()/NewTimer()), 2..4 Close calls
+		// are made one after the other, then the loop is let go step by step
+		seam := r.Intn(3)
+		if !do(Step{O: "gates", Gn: seam == 0, Gt: seam == 1, Gc: seam == 2}) {
+			return
+		}
+		for i, n := 0, r.Range(1, 3); i < n && !broken; i++ {
+			st := mkEnq()
+			if seam == 2 {
+				st.Due = now - int64(r.Range(0, 2))*ms // due: the callback starts at once
+				live[st.K] = liveItem{st.K, st.Due, st.ID}
+			}
+			if !do(st) {
+				return
+			}
+		}
+		for i, n := 0, r.Range(2, 4); i < n; i++ {
+			if !do(Step{O: "close"}) {
+				return
+			}
+			closed = true
+			ctx.Sink.Count("op/close-burst")
+			if r.Chance(1, 4) {
+				if !do(Step{O: "rel"}) {
+					return
+				}
+			}
+		}
+		nsteps = r.Range(2, 8)
+	}
 	raceStyle := style == 2 || style == 3
 	if gatedStyle && r.Chance(2, 3) {
 		if !do(Step{O: "gates", Gn: r.Chance(2, 3), Gt: r.Chance(1, 3), Gc: r.Chance(1, 3)}) {
@@ -330,6 +361,16 @@ func c06GenScript(ctx *core.Ctx, r *hx.Rand, style int) {
 		x := r.Intn(100)
 		held := lastPos == 1 || lastPos == 2 || lastPos == 4
 		switch {
+		case (held || closed) && r.Chance(1, 6):
+			// Close while the loop is held at a seam / inside a callback (the first call, or one
+			// more): no Close call may return before the loop goroutine is gone
+			st = Step{O: "close"}
+			if closed {
+				ctx.Sink.Count("op/close-again")
+			} else {
+				ctx.Sink.Count("op/close-held")
+			}
+			closed = true
 		case held && x < 45:
 			st = Step{O: "rel"}
 			ctx.Sink.Count("op/rel")
@@ -374,8 +415,11 @@ func c06GenScript(ctx *core.Ctx, r *hx.Rand, style int) {
 			st = Step{O: "adv", T: now}
 			ctx.Sink.Count("op/adv")
 		default:
-			if closed {
+			if closed && r.Chance(1, 2) {
 				st = mkEnq() // Enqueue after Close: no-op
+			} else if closed {
+				st = Step{O: "close"} // Close again
+				ctx.Sink.Count("op/close-again")
 			} else {
 				st = Step{O: "close"}
 				closed = true
@@ -402,6 +446,13 @@ func c06GenScript(ctx *core.Ctx, r *hx.Rand, style int) {
 			if !do(Step{O: "close"}) {
 				return
 			}
+			closed = true
+		}
+	}
+	if closed && r.Chance(1, 3) {
+		// Close on a processor that is already closed returns at once
+		if !do(Step{O: "close"}) {
+			return
 		}
 	}
 	if !run.Finish() {
